@@ -821,7 +821,7 @@ def run(ctx):
                     "Interval tactic (certified evaluation; kernel primitive floats/ints)"]
     rng = ctx.rng
     stats = []
-    nsets = ctx.n(22, 400)
+    nsets = ctx.n(16, 400)
     # certified correspondence: files written and coqc started now, collected below
     procs = []
     if proved:
@@ -897,10 +897,10 @@ def run(ctx):
     cc, dd = ctx.cov["correspondence"], ctx.cov["distribution"]
     nm = cc.get("matching", 0)
     ndefl = sum(v for b, v in dd.get("matching", {}).items() if b != "detonation")
-    for k, floor in (("matching", ctx.n(150, 3000)), ("boundaries", ctx.n(100, 2000)),
-                     ("matching_tight", ctx.n(40, 800)), ("matching_defaults", ctx.n(40, 800)),
-                     ("kappa_tight", ctx.n(40, 800)), ("repeat_call", ctx.n(30, 600)),
-                     ("vwLTE", ctx.n(15, 300))):
+    for k, floor in (("matching", ctx.n(110, 3000)), ("boundaries", ctx.n(70, 2000)),
+                     ("matching_tight", ctx.n(30, 800)), ("matching_defaults", ctx.n(30, 800)),
+                     ("kappa_tight", ctx.n(30, 800)), ("repeat_call", ctx.n(24, 600)),
+                     ("vwLTE", ctx.n(12, 300))):
         if cc.get(k, 0) < floor:
             ctx.broken.append("coverage: only %d %s (floor %d)" % (cc.get(k, 0), k, floor))
     if dd.get("vMin", {}).get("shock-limited", 0) < 3:
